@@ -204,9 +204,17 @@ PROPS['C16'] = dict(
          '(answers to original queries) starts every packet at fragment 0, continues contiguously, advances only after an original query '
          'acknowledged the current fragment after it was first sent, never rewinds; answers to re-deliveries never carry data not yet sent '
          'to an original; an identical repeat of one of the 4 most recently answered queries gets the same payload. non-trivial iff the case has '
-         'a repeat in the cache window, one in the qmem window and one of a pending or last-fragment query',
-    engine_text='rapidcheck over choice tapes; simnet hosting the real iodined; scripted session (refproto)',
-    bounds='1 session, <= 90 actions', trusted_base=TB_SIM,
+         'a repeat in the cache window, one in the qmem window and one of a pending or last-fragment query. '
+         'One case in five uses the REAL client instead (classes real-client:*): real iodine <-> relay <-> real iodined on an otherwise clean path, '
+         'the relay (reference DNS implementation, ids rewritten, half of them randomising letter case from the start) repeats ping/data queries '
+         'it forwarded, chosen from the same windows as seen from the relay (conservatively: every answer seen since and everything unanswered '
+         'counts against the window), same or new id, same or second upstream address, case re-randomised, at once or up to 3 s later, and '
+         'swallows the answers to its own repeats; oracles: every packet accepted on either tun device is written to the other exactly once, in '
+         'order, byte-identical, nothing else is written (downstream loss is not judged in runs where a swallowed answer to a case-changed repeat '
+         'carried new data: the server does not repeat single-fragment packets), and an identical repeat with a new id of one of the 4 most '
+         'recently answered queries gets the payload of the original answer; such a case is non-trivial iff >= 3 repeats were sent and >= 2 packets delivered',
+    engine_text='rapidcheck over choice tapes; simnet hosting the real iodined; scripted session (refproto) or real iodine client behind a re-delivering relay',
+    bounds='1 session, <= 90 actions (scripted); <= 40 offered packets (real client)', trusted_base=TB_SIM,
     assumptions=AS_SIM + ['window sizes are reduced by the number of case-changed re-deliveries so far (each may legitimately be remembered as a new query)'],
 )
 
